@@ -1,9 +1,12 @@
 (* drv_C11.ml — driver: runs the extracted C11 container model on operation
    sequences.  Case: kind gm | gauss | pset, meta c l ci q (constructor
-   arguments), word ops (tokens, see props/C11.py), mat <name> for every
-   noise covariance.  After the constructor (step 0) and after every
-   operation it prints every descriptor, every storage matrix with its shape
-   and the per-component accessor views.  Uninitialised cells (junk) are NaN. *)
+   arguments; the constructor overload used by the harness does not matter to
+   the model), word ops (tokens, see props/C11.py), mat <name> for every noise
+   covariance.  After the constructor (step 0) and after every operation it
+   prints every descriptor, every storage matrix with its shape and the
+   per-component accessor views.  Uninitialised cells (junk) are NaN.  Before
+   each operation it evaluates the model's definedness predicate; at the first
+   undefined operation it prints "<k>.defined 0", "undefined_at <k>" and stops. *)
 let junk = ob nan
 let n2i = int_of_nat
 let i2n = nat_of_int
@@ -35,6 +38,7 @@ let hcat (ms : mx list) (rows : nat) : mx =
 let ints s = List.map int_of_string (String.split_on_char ',' s)
 let rest t = String.sub t 1 (String.length t - 1)
 let range n = List.init n (fun i -> i)
+let nmin a b = if n2i a <= n2i b then a else b
 
 let dump_gm (k : int) (g : gm) (ret : int) =
   let p s = Printf.sprintf "%d.%s" k s in
@@ -57,8 +61,7 @@ let dump_acc (k : int) (g : gm) =
   let comps = range (n2i g.components) in
   out_mx (p "amean") (hcat (List.map (fun i -> gm_mean fops g (i2n i)) comps) g.mean_.mrows);
   out_mx (p "acov") (hcat (List.map (fun i -> gm_cov fops g (i2n i)) comps) g.cov_.mrows);
-  out_mx (p "aw")
-    (mk fops g.components (i2n 1) (fun i _ -> gm_weight fops g i));
+  out_mx (p "aw") (mk fops g.components (i2n 1) (fun i _ -> gm_weight fops g i));
   (* element accessors mean(i, j), covariance(i, j, k) *)
   out_mx (p "emean") (mk fops g.dim g.components (fun j i -> gm_mean_el fops g i j));
   out_mx (p "ecov")
@@ -68,7 +71,9 @@ let dump_gauss_acc (k : int) (g : gm) =
   let p s = Printf.sprintf "%d.%s" k s in
   out_mx (p "gmean") (gauss_mean fops g);
   out_mx (p "gcov") (gauss_cov fops g);
-  Caseio.out_num (p "gweight") (fl (gauss_weight fops g))
+  Caseio.out_num (p "gweight") (fl (gauss_weight fops g));
+  out_mx (p "gemean") (mk fops g.dim (i2n 1) (fun i _ -> gauss_mean_el fops g i));
+  out_mx (p "gecov") (mk fops g.dcov (nmin g.dcov g.cov_.mcols) (fun i j -> gauss_cov_el fops g i j))
 
 let dump_ps (k : int) (ps : pset) (ret : int) =
   let p s = Printf.sprintf "%d.%s" k s in
@@ -81,6 +86,7 @@ let dump_ps (k : int) (ps : pset) (ret : int) =
   out_mx (p "estate") (mk fops ps.base.dim ps.base.components (fun j i -> ps_state_el fops ps i j))
 
 let z_of_string s = z_of_int (int_of_string s)
+exception Stop
 
 let () =
   let cases = Caseio.read_records "case" stdin in
@@ -96,76 +102,97 @@ let () =
         if r = 0 || cl = 0 then mk fops (i2n r) (i2n cl) (fun _ _ -> ob 0.0)
         else mx_of_mat (Caseio.get_mat c name)
       in
-      (match c.kind with
-      | "gm" | "gauss" ->
-          let gauss = c.kind = "gauss" in
-          let g = ref (if gauss then gauss_ctor fops (i2n l) (i2n ci) q else gm_ctor fops (i2n cc) (i2n l) (i2n ci) q) in
-          dump_gm 0 !g 1;
-          dump_acc 0 !g;
-          if gauss then dump_gauss_acc 0 !g;
-          List.iteri
-            (fun k0 tok ->
-              let k = k0 + 1 in
-              let ret = ref 1 in
-              let defined = ref true in
-              (match tok.[0] with
-              | 'F' ->
-                  let b = z_of_string (rest tok) in
-                  g := if gauss then gauss_apply fops junk (NFill b) !g else gm_apply fops junk (GFill b) !g
-              | 'C' | 'S' | 'M' -> g := if gauss then gauss_apply fops junk NCopy !g else gm_apply fops junk GCopy !g
-              | 'R' -> (
-                  match ints (rest tok) with
-                  | [ a; b; d ] when not gauss -> g := gm_apply fops junk (GResize (i2n a, i2n b, i2n d)) !g
-                  | [ b; d ] when gauss -> g := gauss_apply fops junk (NResize (i2n b, i2n d)) !g
-                  | _ -> failwith "drv_C11: bad R")
-              | 'A' ->
-                  let qm = getq (rest tok) in
-                  defined := gm_augment_defined fops qm !g;
-                  let r, g' = gm_augment fops qm !g in
-                  (* gm_apply (GAugment q) = snd (gm_augment q) by definition *)
-                  ret := if r then 1 else 0;
-                  g := g'
-              | _ -> failwith ("drv_C11: bad op " ^ tok));
-              dump_gm k !g !ret;
-              Caseio.out_int (Printf.sprintf "%d.defined" k) (if !defined then 1 else 0);
-              dump_acc k !g;
-              if gauss then dump_gauss_acc k !g)
-            ops
-      | "pset" ->
-          let p = ref (ps_ctor fops (i2n cc) (i2n l) (i2n ci) q) in
-          dump_ps 0 !p 1;
-          let fresh s =
-            match ints s with
-            | [ a; b; d; qq; base ] -> ps_apply fops junk (PFill (z_of_int base)) (ps_ctor fops (i2n a) (i2n b) (i2n d) (qq <> 0))
-            | _ -> failwith "drv_C11: bad rhs"
-          in
-          List.iteri
-            (fun k0 tok ->
-              let k = k0 + 1 in
-              let ret = ref 1 in
-              let defined = ref true in
-              let concat rhs = defined := ps_concat_defined fops junk rhs !p; rhs in
-              (match tok.[0] with
-              | 'F' -> p := ps_apply fops junk (PFill (z_of_string (rest tok))) !p
-              | 'C' | 'S' | 'M' -> p := ps_apply fops junk PCopy !p
-              | 'R' -> (
-                  match ints (rest tok) with
-                  | [ a; b; d ] -> p := ps_apply fops junk (PResize (i2n a, i2n b, i2n d)) !p
-                  | _ -> failwith "drv_C11: bad R")
-              | 'A' ->
-                  let qm = getq (rest tok) in
-                  defined := gm_augment_defined fops qm !p.base;
-                  let r, p' = ps_augment fops qm !p in
-                  ret := if r then 1 else 0;
-                  p := p'
-              | 'P' -> p := ps_apply fops junk (PConcat (concat (fresh (rest tok)))) !p
-              | 'Q' -> p := ps_apply fops junk (PPlus (concat (fresh (rest tok)))) !p
-              | 'D' -> p := ps_apply fops junk (PConcat (concat (ps_apply fops junk PCopy !p))) !p
-              | 'E' -> p := ps_apply fops junk (PPlus (concat !p)) !p
-              | _ -> failwith ("drv_C11: bad op " ^ tok));
-              dump_ps k !p !ret;
-              Caseio.out_int (Printf.sprintf "%d.defined" k) (if !defined then 1 else 0))
-            ops
-      | k -> failwith ("drv_C11: unknown kind " ^ k));
+      let undefined k =
+        Caseio.out_int (Printf.sprintf "%d.defined" k) 0;
+        Caseio.out_int "undefined_at" k;
+        raise Stop
+      in
+      (try
+         match c.kind with
+         | "gm" ->
+             let g = ref (gm_ctor fops (i2n cc) (i2n l) (i2n ci) q) in
+             dump_gm 0 !g 1;
+             dump_acc 0 !g;
+             List.iteri
+               (fun k0 tok ->
+                 let k = k0 + 1 in
+                 let op, qm =
+                   match tok.[0] with
+                   | 'F' -> (GFill (z_of_string (rest tok)), None)
+                   | 'C' | 'S' | 'M' -> (GCopy, None)
+                   | 'R' -> (match ints (rest tok) with [ a; b; d ] -> (GResize (i2n a, i2n b, i2n d), None) | _ -> failwith "bad R")
+                   | 'r' -> (match ints (rest tok) with [ a; b ] -> (GResize (i2n a, i2n b, i2n 0), None) | _ -> failwith "bad r")
+                   | 'A' -> let m = getq (rest tok) in (GAugment m, Some m)
+                   | 'W' -> (GAugmentSelf, Some !g.cov_)
+                   | _ -> failwith ("drv_C11: bad op " ^ tok)
+                 in
+                 if not (gop_defined fops op !g) then undefined k;
+                 let ret = match qm with Some m -> if fst (gm_augment fops m !g) then 1 else 0 | None -> 1 in
+                 g := gm_apply fops junk op !g;
+                 dump_gm k !g ret;
+                 Caseio.out_int (Printf.sprintf "%d.defined" k) 1;
+                 dump_acc k !g)
+               ops
+         | "gauss" ->
+             let g = ref (gauss_ctor fops (i2n l) (i2n ci) q) in
+             dump_gm 0 !g 1;
+             dump_acc 0 !g;
+             dump_gauss_acc 0 !g;
+             List.iteri
+               (fun k0 tok ->
+                 let k = k0 + 1 in
+                 let op, qm =
+                   match tok.[0] with
+                   | 'F' -> (NFill (z_of_string (rest tok)), None)
+                   | 'C' | 'S' | 'M' -> (NCopy, None)
+                   | 'R' -> (match ints (rest tok) with [ b; d ] -> (NResize (i2n b, i2n d), None) | _ -> failwith "bad R")
+                   | 'r' -> (match ints (rest tok) with [ b ] -> (NResize (i2n b, i2n 0), None) | _ -> failwith "bad r")
+                   | 'B' -> (match ints (rest tok) with [ a; b; d ] -> (NResizeBase (i2n a, i2n b, i2n d), None) | _ -> failwith "bad B")
+                   | 'A' -> let m = getq (rest tok) in (NAugment m, Some m)
+                   | 'W' -> (NAugmentSelf, Some !g.cov_)
+                   | _ -> failwith ("drv_C11: bad op " ^ tok)
+                 in
+                 if not (gaussop_defined fops op !g) then undefined k;
+                 let ret = match qm with Some m -> if fst (gm_augment fops m !g) then 1 else 0 | None -> 1 in
+                 g := gauss_apply fops junk op !g;
+                 dump_gm k !g ret;
+                 Caseio.out_int (Printf.sprintf "%d.defined" k) 1;
+                 dump_acc k !g;
+                 dump_gauss_acc k !g)
+               ops
+         | "pset" ->
+             let p = ref (ps_ctor fops (i2n cc) (i2n l) (i2n ci) q) in
+             dump_ps 0 !p 1;
+             let fresh s =
+               match ints s with
+               | [ a; b; d; qq; base ] -> ps_apply fops junk (PFill (z_of_int base)) (ps_ctor fops (i2n a) (i2n b) (i2n d) (qq <> 0))
+               | _ -> failwith "drv_C11: bad rhs"
+             in
+             List.iteri
+               (fun k0 tok ->
+                 let k = k0 + 1 in
+                 let op, qm =
+                   match tok.[0] with
+                   | 'F' -> (PFill (z_of_string (rest tok)), None)
+                   | 'C' | 'S' | 'M' -> (PCopy, None)
+                   | 'R' -> (match ints (rest tok) with [ a; b; d ] -> (PResize (i2n a, i2n b, i2n d), None) | _ -> failwith "bad R")
+                   | 'r' -> (match ints (rest tok) with [ a; b ] -> (PResize (i2n a, i2n b, i2n 0), None) | _ -> failwith "bad r")
+                   | 'A' -> let m = getq (rest tok) in (PAugment m, Some m)
+                   | 'W' -> (PAugmentSelf, Some !p.base.cov_)
+                   | 'P' -> (PConcat (fresh (rest tok)), None)
+                   | 'Q' -> (PPlus (fresh (rest tok)), None)
+                   | 'D' -> (PConcat (ps_apply fops junk PCopy !p), None)   (* += a copy of itself *)
+                   | 'E' -> (PPlus !p, None)                                (* x + x: the left operand is copied *)
+                   | 'Z' -> (PConcatSelf, None)                             (* x += x *)
+                   | _ -> failwith ("drv_C11: bad op " ^ tok)
+                 in
+                 if not (pop_defined fops junk op !p) then undefined k;
+                 let ret = match qm with Some m -> if fst (ps_augment fops m !p) then 1 else 0 | None -> 1 in
+                 p := ps_apply fops junk op !p;
+                 dump_ps k !p ret;
+                 Caseio.out_int (Printf.sprintf "%d.defined" k) 1)
+               ops
+         | k -> failwith ("drv_C11: unknown kind " ^ k)
+       with Stop -> ());
       Caseio.out_end ())
     cases
